@@ -245,9 +245,6 @@ Qed.
 End Tiling.
 
 (* ---------------- statements on the model ---------------- *)
-Definition shape_ok (dims cdims : list N) (esz : N) : Prop :=
-  dims <> [] /\ length cdims = length dims /\ posl dims /\ posl cdims /\ 0 < esz.
-
 (* reading the chunks written for old under new, in any order *)
 Theorem read_after_resize_any_order old new cdims esz data L :
   shape_ok old cdims esz -> length new = length old ->
@@ -301,4 +298,64 @@ Proof.
   unfold write_chunks in HP.
   apply Permutation_map_inv in HP. destruct HP as (L & -> & HP).
   apply chunk_tiling_any_order; auto. apply Permutation_sym. auto.
+Qed.
+
+(* ---------------- two resizes without a write in between ---------------- *)
+Lemma resize_zeros esz old : forall new, length new = length old ->
+  resize_arr old new esz (zerosN (vol old esz)) = zerosN (vol new esz).
+Proof.
+  induction old as [|o old' IH]; intros [|n new'] Hl; try discriminate.
+  - cbn [resize_arr]. rewrite !vol_nil. apply takeN_all. rewrite lenN_zerosN. lia.
+  - cbn [resize_arr]. cbn [length] in Hl. rewrite !vol_cons.
+    transitivity (concat (map (fun _ => zerosN (vol new' esz)) (rangeN n))); [| apply concat_zeros].
+    f_equal. apply map_ext_in. intros k Hk. destruct (k <? o) eqn:E; auto.
+    rewrite blk_zeros by nia. apply IH. lia.
+Qed.
+
+Lemma resize_arr_compose esz old : forall mid new data,
+  mid_covers old mid new -> lenN data = vol old esz ->
+  resize_arr mid new esz (resize_arr old mid esz data) = resize_arr old new esz data.
+Proof.
+  induction old as [|o old' IH]; intros [|m mid'] [|n new'] data Hc Hd; cbn [mid_covers] in Hc; try contradiction.
+  - cbn [resize_arr]. rewrite takeN_takeN. f_equal. lia.
+  - destruct Hc as [Hm Hc]. rewrite vol_cons in Hd.
+    assert (Hlen : length mid' = length old' /\ length new' = length old').
+    { clear - Hc. revert mid' new' Hc. induction old'; intros [|? ?] [|? ?] H; cbn [mid_covers] in H; try contradiction; auto.
+      destruct H as [_ H]. destruct (IHold' _ _ H). cbn [length]. lia. }
+    destruct Hlen as [Hl1 Hl2].
+    cbn [resize_arr]. f_equal. apply map_ext_in. intros k Hk. apply in_rangeN in Hk.
+    destruct (k <? m) eqn:Ekm.
+    + rewrite blk_concat; [| | lia].
+      * destruct (k <? o) eqn:Eko.
+        -- apply IH; auto. apply lenN_blk. nia.
+        -- apply resize_zeros. lia.
+      * intros i Hi. destruct (i <? o) eqn:E; [| apply lenN_zerosN].
+        apply lenN_resize_arr; [lia|]. apply lenN_blk. nia.
+    + replace (k <? o) with false by lia. reflexivity.
+Qed.
+
+(* the library's answer after old -> mid -> new (chunk index still the one written for old) is the
+   specified one whenever no intermediate extent drops below both outer extents *)
+Theorem read_after_two_resizes old mid new cdims esz data :
+  shape_ok old cdims esz -> mid_covers old mid new -> lenN data = vol old esz ->
+  read_after_resize old new cdims esz data = Ok (resize_twice_spec old mid new esz data).
+Proof.
+  intros Hs Hc Hd. unfold resize_twice_spec. rewrite resize_arr_compose by auto.
+  apply read_after_resize_correct; auto.
+  clear - Hc. revert mid new Hc. induction old; intros [|? ?] [|? ?] H; cbn [mid_covers] in H; try contradiction; auto.
+  destruct H as [_ H]. cbn [length]. f_equal. eauto.
+Qed.
+
+(* ... and differs otherwise: stale data of the first write shows up again *)
+Lemma shrink_grow_refuted :
+  exists old mid new cdims esz data,
+    shape_ok old cdims esz /\ length mid = length old /\ length new = length old /\
+    lenN data = vol old esz /\
+    read_after_resize old new cdims esz data = Ok [1; 2; 3; 4; 5; 6; 7] /\
+    resize_twice_spec old mid new esz data = [1; 2; 3; 0; 0; 0; 0].
+Proof.
+  exists [8], [3], [7], [4], 1, [1; 2; 3; 4; 5; 6; 7; 8].
+  repeat split; try (vm_compute; reflexivity); try discriminate.
+  - repeat constructor.
+  - repeat constructor.
 Qed.
